@@ -348,7 +348,41 @@ func c01bucket(c *Ctx) {
 	}
 	// history(): accepts accumulates Success, total accumulates Sum
 	if f := c.fn(rule, brkPkg, "(*googleBreaker).history"); f != nil {
-		cl := c.closure(rule, f, "reducer", func(a *ssa.Function) bool { return true })
+		// the reducer, by role: the function literal handed to the window's Reduce
+		reducers := map[*ssa.Function]bool{}
+		for _, b := range f.Blocks {
+			for _, ins := range b.Instrs {
+				if call, ok := ins.(ssa.CallInstruction); ok && call.Common().StaticCallee() != nil && strings.HasPrefix(call.Common().StaticCallee().Name(), "Reduce") {
+					for _, a := range call.Common().Args {
+						if mc, ok := a.(*ssa.MakeClosure); ok {
+							if fn, ok := mc.Fn.(*ssa.Function); ok {
+								reducers[fn] = true
+							}
+						}
+					}
+				}
+			}
+		}
+		cl := c.closure(rule, f, "reducer", func(a *ssa.Function) bool { return reducers[a] })
+		// the summary is computed from the window on every call: each return follows one Reduce over b.stat and hands
+		// out the accumulator it filled. A summary remembered from an earlier call (a snapshot with a lifetime) misses
+		// what was recorded since — the admission law speaks about the calls recorded in the window, not about a copy.
+		hps := c.paths(rule, f, px.Config{})
+		c.forall(rule, "core/breaker.(*googleBreaker).history#live", "every result of history() comes from one Reduce over the rolling window made by this call (no remembered summary)", f, hps, func(p *px.Path) (bool, string) {
+			if p.Exit != px.ExitReturn {
+				return true, ""
+			}
+			n := 0
+			for _, e := range p.All(px.KindIs(px.EvCall)) {
+				if e.Call.Static != nil && strings.HasPrefix(e.Call.Static.Name(), "Reduce") && len(e.Call.Args) > 0 && px.IsFieldLoad(e.Call.Args[0], "stat", nil) && e.Seq < p.Last(px.KindIs(px.EvReturn)).Seq {
+					n++
+				}
+			}
+			if n != 1 {
+				return false, fmt.Sprintf("a window summary is returned after %d Reduce calls over b.stat (a cached/remembered summary does not contain the calls recorded since it was taken: calls are rejected although the window is inside the law, or admitted although it is not)", n)
+			}
+			return true, ""
+		})
 		if cl != nil {
 			ps := c.paths(rule, cl, px.Config{})
 			c.forall(rule, "core/breaker.(*googleBreaker).history$reduce", "the window summary accumulates accepts += bucket.Success and total += bucket.Sum for every bucket", cl, ps, func(p *px.Path) (bool, string) {
@@ -385,7 +419,7 @@ func c01bucket(c *Ctx) {
 			})
 		}
 	}
-	c.R.Min(rule, 8, "bucket.Add×3, mark*×3, Reset, history")
+	c.R.Min(rule, 9, "bucket.Add×3, mark*×3, Reset, history (live, reducer)")
 }
 
 func c01accept(c *Ctx) {
